@@ -485,7 +485,11 @@ impl<'a> Gen<'a> {
             0 => self.gen_call(ctx, None),
             1 => {
                 self.budget -= 1;
-                let arg = self.gen_arg(ctx, false);
+                let mut arg = self.gen_arg(ctx, false);
+                if matches!(&arg, Val::Var(n) if n.starts_with("#%")) {
+                    // a canon map without a lens is not an ap argument
+                    arg = Val::Int(self.rng.below(100) as i64);
+                }
                 let shape = match &arg {
                     Val::Var(n) => self.scope.iter().find(|v| &v.name == n).map(|v| v.shape.clone()).unwrap_or(Shape::Unknown),
                     Val::VarLens(n, l) => {
@@ -571,7 +575,13 @@ impl<'a> Gen<'a> {
                     let n = self.id();
                     Val::Lit(format!("mv{n}"))
                 } else {
-                    Val::Var(self.rng.pick(&self.scope).name.clone())
+                    let cands: Vec<VarInfo> = self.scope.iter().filter(|v| v.shape != Shape::CanonMap).cloned().collect();
+                    if cands.is_empty() {
+                        let n = self.id();
+                        Val::Lit(format!("mv{n}"))
+                    } else {
+                        Val::Var(self.rng.pick(&cands).name.clone())
+                    }
                 };
                 Ins::ApMap { key, value, map: m }
             }
